@@ -10,6 +10,7 @@ import (
 	"os"
 	"path"
 	"path/filepath"
+	"regexp"
 	"strings"
 
 	"golang.org/x/tools/go/ssa"
@@ -340,11 +341,38 @@ func (e *Engine) intrinsic(st *State, fn *ssa.Function, args []Value, ci ssa.Val
 		}
 		e.finish(st, ci, newErr(msg, nil), fd)
 		return true
-	case "regexp.MustCompile":
-		// regular expressions are compiled in package initialisers only; none of the
-		// encoded code paths matches against them (a use would dereference nil and
-		// show up as a runtime panic)
+	case "reflect.DeepEqual":
+		e.finish(st, ci, e.deepEqual(st, args[0], args[1], 0), fd)
+		return true
+	case "github.com/lni/goutils/random.NewLockedRand":
+		// the random source is only used through LockedRand.Uint64 (intrinsic)
 		e.finish(st, ci, (*Ptr)(nil), fd)
+		return true
+	case "os.Getpid":
+		e.finish(st, ci, Const(64, 4242), fd)
+		return true
+	case "os.Hostname":
+		e.finish(st, ci, &Tuple{V: []Value{"vhost", (*Iface)(nil)}}, fd)
+		return true
+	case "regexp.MustCompile":
+		// regular expressions are kept as native objects; matching runs natively on
+		// concrete input
+		pat, ok := args[0].(string)
+		if !ok {
+			panic(unsupported("regexp.MustCompile of non-constant pattern"))
+		}
+		e.finish(st, ci, &Native{V: regexp.MustCompile(pat)}, fd)
+		return true
+	case "(*regexp.Regexp).Match", "(*regexp.Regexp).MatchString":
+		re, ok := args[0].(*Native)
+		if !ok {
+			panic(goPanic{"runtime error: nil pointer dereference (regexp)"})
+		}
+		b, ok := e.concreteBytes(st, args[1])
+		if !ok {
+			panic(unsupported("regexp match on symbolic input"))
+		}
+		e.finish(st, ci, Bool(re.V.(*regexp.Regexp).Match(b)), fd)
 		return true
 	case "github.com/cockroachdb/errors.WithStack":
 		e.finish(st, ci, args[0], fd)
@@ -1012,4 +1040,101 @@ func (e *Engine) md5Model(bs []Value) []Value {
 		out[8+i] = Extract(8*i+7, 8*i, b)
 	}
 	return out
+}
+
+// deepEqual models reflect.DeepEqual structurally (scalars compare as terms).
+func (e *Engine) deepEqual(st *State, a, b Value, depth int) *Term {
+	if depth > 20 {
+		panic(unsupported("reflect.DeepEqual too deep"))
+	}
+	switch x := a.(type) {
+	case *Iface:
+		y, _ := b.(*Iface)
+		if x == nil || y == nil {
+			return Bool(x == nil && y == nil)
+		}
+		if !types.Identical(x.T, y.T) {
+			return Bool(false)
+		}
+		return e.deepEqual(st, x.V, y.V, depth+1)
+	case *Struct:
+		y, ok := b.(*Struct)
+		if !ok || len(x.F) != len(y.F) {
+			return Bool(false)
+		}
+		r := Bool(true)
+		for i := range x.F {
+			r = And(r, e.deepEqual(st, x.F[i], y.F[i], depth+1))
+		}
+		return r
+	case *Array:
+		y, ok := b.(*Array)
+		if !ok || len(x.E) != len(y.E) {
+			return Bool(false)
+		}
+		r := Bool(true)
+		for i := range x.E {
+			r = And(r, e.deepEqual(st, x.E[i], y.E[i], depth+1))
+		}
+		return r
+	case *Slice:
+		y, ok := b.(*Slice)
+		if !ok {
+			return Bool(false)
+		}
+		if x.Nil != y.Nil || x.Len != y.Len {
+			return Bool(false)
+		}
+		r := Bool(true)
+		ex, ey := e.sliceElems(st, x), e.sliceElems(st, y)
+		for i := range ex {
+			r = And(r, e.deepEqual(st, ex[i], ey[i], depth+1))
+		}
+		return r
+	case *MapRef:
+		y, ok := b.(*MapRef)
+		if !ok {
+			return Bool(false)
+		}
+		if x.Obj == 0 || y.Obj == 0 {
+			return Bool(x.Obj == 0 && y.Obj == 0)
+		}
+		mx, my := st.heap[x.Obj].(*MapVal), st.heap[y.Obj].(*MapVal)
+		if len(mx.K) != len(my.K) {
+			return Bool(false)
+		}
+		r := Bool(true)
+		for i := range mx.K {
+			found := Bool(false)
+			for j := range my.K {
+				found = Or(found, And(eqValues(mx.K[i], my.K[j]), e.deepEqual(st, mx.V[i], my.V[j], depth+1)))
+			}
+			r = And(r, found)
+		}
+		return r
+	case *Ptr:
+		y, ok := b.(*Ptr)
+		if !ok {
+			return Bool(false)
+		}
+		if x == nil || y == nil {
+			return Bool(x == nil && y == nil)
+		}
+		if x.Obj == y.Obj && len(x.Path) == len(y.Path) {
+			same := true
+			for i := range x.Path {
+				if x.Path[i] != y.Path[i] {
+					same = false
+				}
+			}
+			if same {
+				return Bool(true)
+			}
+		}
+		return e.deepEqual(st, st.load(x), st.load(y), depth+1)
+	case *Func:
+		y, _ := b.(*Func)
+		return Bool(x == nil && y == nil)
+	}
+	return eqValues(a, b)
 }
